@@ -936,6 +936,87 @@ class Stream:
             cons.MAX_KNOWN_HASH_HEIGHT = -1
         return world
 
+    def two_thread_lane(self, world, rng, npairs, points=24):
+        """two threads validate at once (the networking thread a block from a peer, the miner thread the block it found; or
+        two connections' blocks in turn while another thread reads).  Thread A runs full validation of one candidate; at a
+        sample of its statement boundaries / function entries inside the validation modules it is held while thread B
+        validates ANOTHER candidate from start to finish.  A rule-breaking candidate must be refused and a valid one accepted,
+        whatever the other thread validated in between"""
+        import skepticoin.consensus as cons
+        import skepticoin.coinstate as csm
+        import skepticoin.balances as bal
+        import skepticoin.pow as pw
+        import skepticoin.datatypes as dt
+        import skepticoin.signing as sg
+        import skepticoin.merkletree as mt
+        import skepticoin.hash as hm
+        import skepticoin.serialization as ser
+        from skv import preempt
+        c = self.c
+        bad = [(rb, now, cls) for (rb, now, cls) in self.rejected_pool
+               if rb.prev in world.chain.blocks and rb.id() not in world.chain.blocks and (ref.block_codes(world.chain, rb, now) & self.prop_codes)]
+        if not bad:
+            return
+        pre = preempt.Preempter([cons, csm, bal, pw, dt, sg, mt, hm, ser])
+        if not pre.ok:
+            c["two_thread_tool_slot_taken"] = 1
+            return
+        cs = world.cs
+        head = cs.current_chain_hash
+        try:
+            for _ in range(npairs):
+                rb_bad, now_bad, cls = rng.choice(bad)
+                # a fully valid block on the head, with ordinary transactions where the ledger allows
+                try:
+                    txs, used = [], set()
+                    for _k in range(rng.choice([0, 1, 3])):
+                        t = world.make_rtx(head, rng, exclude=used)
+                        if t is None:
+                            break
+                        used.update(t.refs())
+                        txs.append(t)
+                    parent = world.chain.blocks[head]
+                    rb_ok = world.mine(world.draft(head, txs, parent.ts + rng.choice([1, 60]), rng.choice(world.keys)[1]))
+                except Exception:
+                    continue
+                now_ok = rb_ok.ts
+                if ref.block_codes(world.chain, rb_ok, now_ok):
+                    continue
+                enc_bad, enc_ok = rb_bad.enc(), rb_ok.enc()
+
+                def job(enc, now):
+                    def work():
+                        blk = dt.Block.deserialize(enc)
+                        new = cs.add_block(blk, now)
+                        return blk.hash() in new.block_by_hash
+                    return work
+                for first_is_bad in (True, False):
+                    ja, jb = (job(enc_bad, now_bad), job(enc_ok, now_ok)) if first_is_bad else (job(enc_ok, now_ok), job(enc_bad, now_bad))
+                    total = pre.count(ja)
+                    c["two_thread_pairs"] = c.get("two_thread_pairs", 0) + 1
+                    ks = pre.points_by_location(rng, points)
+                    c["two_thread_locations_seen"] = len(pre.loc_uses)
+                    for k in ks:
+                        a, b, ran = pre.run(ja, jb, k)
+                        if not ran:
+                            continue
+                        c["two_thread_switch_points"] = c.get("two_thread_switch_points", 0) + 1
+                        got_bad, got_ok = (a, b) if first_is_bad else (b, a)
+                        if got_bad is True:
+                            codes = ref.block_codes(world.chain, rb_bad, now_bad) & self.prop_codes
+                            w = dict(self.witness(world, rb_bad, now_bad, cls), two_threads=True, other_candidate=enc_ok.hex(),
+                                     switch_at_event=k, of_events=total, held_thread_validates="the rule-breaking block" if first_is_bad else "the valid block")
+                            self.v("%s:%s" % (self.prefix, "+".join(sorted(codes))), "class %s: block ACCEPTED by full validation "
+                                   "although the reference finds %s -- while another thread validated a valid block (switch at event "
+                                   "%d of %d)" % (cls, sorted(codes), k, total), w)
+                        if got_ok is not True:
+                            w = dict(self.witness(world, rb_ok, now_ok, "valid-on-head"), two_threads=True, other_candidate=enc_bad.hex(),
+                                     switch_at_event=k, of_events=total)
+                            self.v("valid-block-refused-while-another-thread-validates", "a fully valid block is refused (%r) when another "
+                                   "thread validates a %s block at the same time (switch at event %d of %d)" % (got_ok, cls, k, total), w)
+        finally:
+            pre.close()
+
     def replay(self, w, rng):
         params = ref.Params(period=w.get("period", ref.RETARGET_PERIOD))
         world = gen.World(rng, params=params)
